@@ -238,9 +238,22 @@ def t_byvalue(r, name):
     return ("func %s() uint64 {\n\tmu := new(sync.Mutex)\n\tc := sync.NewCond(mu)\n\tvar n uint64 = %d\n\tc.L.Lock()\n\tn = n + 1\n\tc.L.Unlock()\n\tmu.Lock()\n\tres := n\n\tmu.Unlock()\n\treturn res\n}\n" % (name, v)), True
 
 
-MAY_BE_REJECTED = {"t_goargs", "t_byvalue"}
+def t_global(r, name):
+    """synchronisation objects that are not created by new(...) in the function: package-level variables (goose turns a global into a
+    definition that is re-evaluated at every use) and composite literals.  They must be rejected, or mean what Go means"""
+    v = r.randrange(1, 9)
+    if getattr(r, "global_variant", 0) == 0:
+        return ("var g%s_mu = new(sync.Mutex)\n\nvar g%s_wg = new(sync.WaitGroup)\n\n"
+                "func %s() uint64 {\n\tvar n uint64 = 0\n\tg%s_wg.Add(1)\n\tgo func() {\n\t\tg%s_mu.Lock()\n\t\tn = n + %d\n\t\tg%s_mu.Unlock()\n\t\tg%s_wg.Done()\n\t}()\n"
+                "\tg%s_wg.Add(1)\n\tgo func() {\n\t\tg%s_mu.Lock()\n\t\tn = n + 1\n\t\tg%s_mu.Unlock()\n\t\tg%s_wg.Done()\n\t}()\n"
+                "\tg%s_wg.Wait()\n\tg%s_mu.Lock()\n\tres := n\n\tg%s_mu.Unlock()\n\treturn res\n}\n" % ((name, name, name, name, name, v) + (name,) * 9)), True
+    return ("func %s() uint64 {\n\tmu := &sync.Mutex{}\n\twg := &sync.WaitGroup{}\n\tvar n uint64 = 0\n\twg.Add(1)\n\tgo func() {\n\t\tmu.Lock()\n\t\tn = n + %d\n\t\tmu.Unlock()\n\t\twg.Done()\n\t}()\n"
+            "\twg.Wait()\n\tmu.Lock()\n\tres := n\n\tmu.Unlock()\n\treturn res\n}\n" % (name, v)), True
 
-TEMPLATES = [t_goargs, t_counter, t_counter, t_cond, t_timeout, t_order, t_loopspawn, t_helper, t_handoff, t_signalled, t_owntypes, t_bcast, t_byvalue, t_byvalue, t_poll]
+
+MAY_BE_REJECTED = {"t_goargs", "t_byvalue", "t_global"}
+
+TEMPLATES = [t_goargs, t_counter, t_counter, t_cond, t_timeout, t_order, t_loopspawn, t_helper, t_handoff, t_signalled, t_owntypes, t_bcast, t_byvalue, t_byvalue, t_poll, t_global, t_global]
 
 
 def package(seed, nfuncs=12):
@@ -251,7 +264,8 @@ def package(seed, nfuncs=12):
         # whose mutex lives in a re-assignable variable; then templates by rotation and at random
         r.force_zero_timeout = (seed % 2 == 0)
         r.force_var_mutex = (k == 2)
-        t = [t_timeout, t_goargs, t_counter, t_signalled, t_owntypes, t_bcast, t_byvalue, t_poll][k] if k < 8 else TEMPLATES[(seed * 3 + k) % len(TEMPLATES)] if k < 11 else r.choice(TEMPLATES)
+        r.global_variant = (seed + k) % 2
+        t = [t_timeout, t_goargs, t_counter, t_signalled, t_owntypes, t_bcast, t_byvalue, t_poll, t_global][k] if k < 9 else TEMPLATES[(seed * 3 + k) % len(TEMPLATES)] if k < 11 else r.choice(TEMPLATES)
         src, det = t(r, "c%d" % k)
         fns.append(("c%d" % k, t.__name__, src, det))
     body = "\n".join(f[2] for f in fns)
@@ -325,7 +339,9 @@ def check(ctx, build=None):
                 continue
             nm = k4.gl_session(text, ["names"])
             present = set(nm[1][6:].split(",")) if not nm[0].startswith("parse-error") and nm[1] != "names -" else set()
-            missing_fns = [f for f in fns if f[0] not in present]
+            # a function that uses a package-level variable goose refused is not translated either (under -ignore-errors the rest of
+            # the file is still written)
+            missing_fns = [f for f in fns if f[0] not in present or any(g not in present for g in re.findall(r"^var (\w+) =", f[2], re.M))]
             for f in missing_fns:
                 if f[1] in MAY_BE_REJECTED:
                     stats["rejected_out_of_subset"] += 1
@@ -333,7 +349,7 @@ def check(ctx, build=None):
                     viol("C03: goose rejects a function built from go statements, mutexes, condition variables and wait groups",
                          {"proto": "c03", "seed": seed, "function": f[0], "template": f[1], "go_source": f[2]}, "accepted", gerr[-800:])
             all_fns = fns
-            fns = [f for f in fns if f[0] in present]
+            fns = [f for f in fns if f not in missing_fns]
             nat, races = native_outcomes(root, all_fns, runs, race=False)
             nat_r, races_r = native_outcomes(root, all_fns, max(1, runs // 3), race=True)
             if races_r:
